@@ -50,16 +50,21 @@ class Env:
         self._err = Exception(ERR)
         N, C, E = self.N, self.C, self.E
         # two different numeric timelines (source A / source B), argument observables
+        # (a third timeline per kind: source C of the three-source plans of C44)
         self.lines = {
             "num": ([N(10, 1), N(20, 2), N(30, 3), N(40, 4), N(50, 5), C(60)],
-                    [N(5, 10), N(25, 20), N(26, 30), N(70, 40), C(90)]),
-            "err": ([N(10, 1), N(20, 2), E(35)], [N(5, 10), N(25, 20), E(45)]),
-            "empty": ([C(20)], [C(35)]),
-            "single": ([N(10, 1), C(20)], [N(15, 9), C(30)]),
+                    [N(5, 10), N(25, 20), N(26, 30), N(70, 40), C(90)],
+                    [N(12, 6), N(13, 7), N(31, 8), N(55, 6), N(56, 9), N(80, 2), C(85)]),
+            "err": ([N(10, 1), N(20, 2), E(35)], [N(5, 10), N(25, 20), E(45)], [N(7, 6), E(18)]),
+            "empty": ([C(20)], [C(35)], [C(8)]),
+            "single": ([N(10, 1), C(20)], [N(15, 9), C(30)], [N(2, 5), C(44)]),
             "dup": ([N(10, 1), N(20, 1), N(30, 2), N(40, 2), N(50, 1), C(60)],
-                    [N(5, 3), N(25, 3), N(26, 4), N(70, 3), C(90)]),
-            "dict": ([N(10, {"a": 1}), N(20, {"a": 2}), C(30)], [N(5, {"a": 7}), N(40, {"a": 8}), C(50)]),
-            "tup": ([N(10, (1, 2)), N(20, (3, 4)), C(30)], [N(5, (5, 6)), N(40, (7, 8)), C(50)]),
+                    [N(5, 3), N(25, 3), N(26, 4), N(70, 3), C(90)],
+                    [N(12, 2), N(13, 2), N(31, 1), N(55, 1), N(56, 2), C(85)]),
+            "dict": ([N(10, {"a": 1}), N(20, {"a": 2}), C(30)], [N(5, {"a": 7}), N(40, {"a": 8}), C(50)],
+                     [N(12, {"a": 4}), C(20)]),
+            "tup": ([N(10, (1, 2)), N(20, (3, 4)), C(30)], [N(5, (5, 6)), N(40, (7, 8)), C(50)],
+                    [N(12, (9, 1)), N(13, (2, 2)), C(41)]),
         }
 
     # notifications
@@ -84,8 +89,7 @@ class Env:
                                 self.C(30)], f"inner{which}.{i}") for i in range(3)]
             tl = [self.N(10, inner[0]), self.N(22, inner[1]), self.N(50, inner[2]), self.C(60 + 10 * which)]
             return self.cold(tl, f"src{which}:obs")
-        a, b = self.lines[kind]
-        return self.cold(a if which == 0 else b, f"src{which}:{kind}")
+        return self.cold(self.lines[kind][which], f"src{which}:{kind}")
 
     # argument observables (fresh cold observable per call, logged)
     def other(self, tag="o"):
@@ -241,13 +245,14 @@ def run_c04(r, plan):
 
 
 def run_c44(r, shared, plan):
-    """one operator value (shared) or one per application; two applications (sources A, B).
-    plan = 'seq' | 'interleaved'"""
+    """one operator value (shared) or one per application; two applications (sources A, B), three (A, B, C) in
+    the 'inter3' plans.
+    plan = 'seq' | 'interleaved' | ('inter', (d1, d2, d3), (c0, c1)) | ('inter3', (d1, .., d5), (c0, c1, c2))"""
     e = Env()
+    nsrc = 3 if (not isinstance(plan, str) and plan[0] == "inter3") else 2
     try:
         op1 = r.op(e)
-        op2 = op1 if shared else r.op(e)
-        xs = [r.build(e, 0, op1), r.build(e, 1, op2)]
+        xs = [r.build(e, k, op1 if (shared or k == 0) else r.op(e)) for k in range(nsrc)]
     except Exception as ex:
         return {"construct_error": f"{type(ex).__name__}: {ex}"}
     recs = []
@@ -257,6 +262,10 @@ def run_c44(r, shared, plan):
     elif plan == "interleaved":
         sched = [(0, 200, 1500), (1, 215, 1500), (0, 240, 1500), (1, 262, 1500)]
         conn = [(0, 221, 1500), (1, 223, 1500)]
+    elif plan[0] == "inter3":   # A at 200, then B, C, A, B, C at 200 + d; connections of A, B, C at 200 + c
+        _, ds, cs = plan
+        sched = [(0, 200, 1500)] + [((k + 1) % 3, 200 + d, 1500) for k, d in enumerate(ds)]
+        conn = [(k, 200 + c, 1500) for k, c in enumerate(cs)]
     else:                       # ("inter", (d1, d2, d3), (c0, c1)): B, A, B subscribe d ticks after A
         _, (d1, d2, d3), (c0, c1) = plan
         sched = [(0, 200, 1500), (1, 200 + d1, 1500), (0, 200 + d2, 1500), (1, 200 + d3, 1500)]
@@ -494,6 +503,65 @@ def recipes():
     add("zip_with_iterable", lambda e: ops.zip_with_iterable([7, 8, 9]))
     add("zip_with_iterable", lambda e: ops.zip_with_iterable(range(100, 200)), label="range")
     add("zip_with_list", lambda e: ops.zip_with_list([7, 8]), uses=("ops.zip_with_iterable",))
+
+    # ---- the OTHER branch of optional arguments (one more variant per factory where the first ones leave a branch
+    # of an optional parameter untaken): comparers, default values, None mappers, subject mappers, `inclusive`,
+    # time operators WITHOUT a scheduler argument (they then run on the scheduler given to subscribe)
+    from reactivex.subject import ReplaySubject
+    mod4 = lambda a, b: a % 4 == b % 4
+    cmp3 = lambda a, b: (a % 3) - (b % 3)
+    add("contains", lambda e: ops.contains(7, mod4), label="comparer")
+    add("default_if_empty", lambda e: ops.default_if_empty(), src="empty", label="none")
+    add("default_if_empty", lambda e: ops.default_if_empty(7), label="nonempty")
+    add("distinct_until_changed", lambda e: ops.distinct_until_changed(comparer=mod4), src="dup", label="comparer")
+    add("distinct_until_changed", lambda e: ops.distinct_until_changed(lambda x: x * 2, mod4), label="key+comparer")
+    add("do_action", lambda e: ops.do_action(lambda x: None), label="on_next-only")
+    add("do_action", lambda e: ops.do_action(on_completed=lambda: None), label="on_completed-only")
+    add("element_at_or_default", lambda e: ops.element_at_or_default(9), label="none")
+    add("element_at_or_default", lambda e: ops.element_at_or_default(1, "d"), label="found")
+    add("first_or_default", lambda e: ops.first_or_default(), src="empty", label="none")
+    add("flat_map", lambda e: ops.flat_map(), src="obs", label="none")
+    add("flat_map_indexed", lambda e: ops.flat_map_indexed(), src="obs", label="none")
+    add("switch_map", lambda e: ops.switch_map(), src="obs", label="none")
+    add("switch_map_indexed", lambda e: ops.switch_map_indexed(), src="obs", label="none")
+    add("group_by", lambda e: ops.group_by(lambda x: x % 2, None, lambda: ReplaySubject()), post=flat, uses=W,
+        label="subject")
+    add("group_by_until", lambda e: ops.group_by_until(lambda x: x % 2, lambda x: x * 10, lambda g: e.timer(25),
+                                                       lambda: ReplaySubject()), post=flat, uses=W, label="elem+subject")
+    add("last_or_default", lambda e: ops.last_or_default(), src="empty", label="none")
+    add("max", lambda e: ops.max(cmp3), label="comparer")
+    add("min", lambda e: ops.min(cmp3), label="comparer")
+    add("max_by", lambda e: ops.max_by(lambda x: x, cmp3), label="comparer")
+    add("min_by", lambda e: ops.min_by(lambda x: x, cmp3), label="comparer")
+    add("replay", lambda e: ops.replay(2, 30, scheduler=e.s), connectable=True, c04=False, label="size+window")
+    add("replay", lambda e: ops.replay(scheduler=e.s), connectable=True, c04=False, label="unbounded")
+    add("replay", lambda e: ops.replay(buffer_size=2), connectable=True, c04=False, label="nosched")
+    add("replay", lambda e: ops.replay(mapper=lambda c: c.pipe(ops.take(3)), window=30, scheduler=e.s),
+        uses=("ops.take",), label="mapper+window")
+    add("sequence_equal", lambda e: ops.sequence_equal([5, 6, 7, 8, 9], mod4), label="comparer")
+    add("single_or_default", lambda e: ops.single_or_default(), src="empty", label="none")
+    add("single_or_default", lambda e: ops.single_or_default(None, 0), src="single", label="nopred")
+    add("single_or_default_async", lambda e: ops.single_or_default_async(), src="single", label="nodefault")
+    add("single_or_default_async", lambda e: ops.single_or_default_async(), src="empty", label="nodefault-empty")
+    add("take_while_indexed", lambda e: ops.take_while_indexed(lambda x, i: i < 3, inclusive=True), label="incl")
+    add("timeout_with_mapper", lambda e: ops.timeout_with_mapper(None, lambda x: e.timer(15)), label="nofirst-noother")
+    add("timeout_with_mapper", lambda e: ops.timeout_with_mapper(e.timer(8)), label="first-only")
+    add("to_dict", lambda e: ops.to_dict(lambda x: x % 3, lambda x: x * 10), label="elem")
+    add("window_with_time", lambda e: ops.window_with_time(25, 10, scheduler=e.s), post=flat, uses=W, label="shift")
+    for nm, mk in (("delay", lambda: ops.delay(15)), ("debounce", lambda: ops.debounce(8)),
+                   ("sample", lambda: ops.sample(20)), ("buffer_with_time", lambda: ops.buffer_with_time(25)),
+                   ("buffer_with_time_or_count", lambda: ops.buffer_with_time_or_count(25, 2)),
+                   ("take_with_time", lambda: ops.take_with_time(35)), ("skip_with_time", lambda: ops.skip_with_time(25)),
+                   ("timeout", lambda: ops.timeout(8)), ("throttle_first", lambda: ops.throttle_first(15)),
+                   ("delay_subscription", lambda: ops.delay_subscription(15)),
+                   ("take_until_with_time", lambda: ops.take_until_with_time(35)),
+                   ("skip_until_with_time", lambda: ops.skip_until_with_time(25)),
+                   ("take_last_with_time", lambda: ops.take_last_with_time(25)),
+                   ("skip_last_with_time", lambda: ops.skip_last_with_time(15)),
+                   ("to_marbles", lambda: ops.to_marbles(timespan=10))):
+        add(nm, (lambda mk: (lambda e: mk()))(mk), label="nosched")
+    add("window_with_time", lambda e: ops.window_with_time(25), post=flat, uses=W, label="nosched")
+    add("window_with_time_or_count", lambda e: ops.window_with_time_or_count(25, 2), post=flat, uses=W, label="nosched")
 
     # stateful conditions (sequential plan only, reset per subscription)
     def wd(e):
